@@ -12,6 +12,14 @@ METAS = [None, {"district": "A"}, {"age": "30", "sex": "f"}, {"k": "v"}]
 
 def _num(s, rep):
     fr = Fraction(s)
+    if rep == "float":
+        try:
+            x = float(fr)
+            if Fraction(x) == fr:          # only values a binary float represents exactly
+                return x
+        except OverflowError:
+            pass
+        rep = "mpq"
     if rep == "mpq":
         from pabutools.fractions import frac
         return frac(int(fr.numerator), int(fr.denominator))
